@@ -53,15 +53,18 @@ fn main() {
     let debug_line = gimli::read::DebugLine::new(&header, gimli::LittleEndian);
     let program = debug_line.program(gimli::DebugLineOffset(0), 8, None, None).expect("input parses");
     println!("input header: line_base {} line_range {}", program.header().line_base(), program.header().line_range());
-    let dwarf = gimli::read::Dwarf::<gimli::EndianSlice<gimli::LittleEndian>>::default();
-    let converted = catch_unwind(|| {
+    let load = |id: gimli::SectionId| -> Result<gimli::EndianSlice<'_, gimli::LittleEndian>, gimli::Error> {
+        Ok(gimli::EndianSlice::new(match id { gimli::SectionId::DebugLine => &header[..], _ => &[] }, gimli::LittleEndian))
+    };
+    let dwarf = gimli::read::Dwarf::load(load).unwrap();
+    let converted = catch_unwind(std::panic::AssertUnwindSafe(|| {
         let mut out = gimli::write::Dwarf::new();
-        let mut conv = out.read_line_program(&dwarf, program, None, None, None);
-        match &mut conv {
+        let conv = out.read_line_program(&dwarf, program, None, None);
+        match conv {
             Ok(_) => "Ok".to_string(),
             Err(e) => format!("Err({e:?})"),
         }
-    });
+    }));
     match converted {
         Ok(r) => println!("conversion of the line_range = 200 program returned {r}"),
         Err(_) => {
